@@ -141,7 +141,7 @@ static void on_segv(int sig, siginfo_t* si, void* uc) {
   raise(sig);
 }
 
-static uint64_t g_fn_calls[RO_N], g_trees, g_nodes;
+static uint64_t g_fn_calls[RO_N], g_trees, g_nodes, g_moved_roots;
 struct run_ud { const cbor_item_t* root; unsigned char* out; size_t outn; const char* origin; };
 
 static void field_of(const void* addr, char* buf, size_t cap) {
@@ -271,11 +271,19 @@ static void ro_case_api(uint64_t u, uint64_t seed) {
   cbor_item_t* it = walk_build_from_ref(t);
   rn_free(t);
   if (it) {
-    char origin[64];
+    char origin[128];
     snprintf(origin, sizeof origin, "construction calls (tree #%llu)", (unsigned long long)u);
     /* a second reference to the root, as a tree shared between readers would have */
     if (u & 1) cbor_incref(it);
+    /* one tree in four is a temporary handed on with cbor_move and not adopted yet (reference count 0): reading it is as
+     * legitimate as reading any other item, and must neither write to it nor release it */
+    bool moved = (u & 3) == 2;
+    if (moved) { (void)cbor_move(it); snprintf(origin, sizeof origin, "construction calls (tree #%llu), root lent with cbor_move: reference count 0", (unsigned long long)u); g_moved_roots++; }
     tree_case(it, origin);
+    if (moved) {
+      if (cbor_refcount(it) != 0) vh_violation("tree-changed", "a root with reference count 0 has count %zu after the read-only operations", cbor_refcount(it));
+      cbor_incref(it);
+    }
     if (u & 1) { cbor_item_t* tmp = it; cbor_decref(&tmp); }
     vh_nontrivial(vh_hash(desc, 17));
     cbor_decref(&it);
@@ -428,6 +436,7 @@ static void ro_run(void) {
   vb_free(&x);
   for (int fn = 0; fn < RO_N; fn++) { char nm[160]; snprintf(nm, sizeof nm, "calls.%s", ro_names[fn]); nm[60] = 0; vh_count_dyn(nm, g_fn_calls[fn]); }
   vh_count_dyn("trees", g_trees);
+  vh_count_dyn("trees_whose_root_has_reference_count_0", g_moved_roots);
   vh_count_dyn("nodes_visited", g_nodes);
   vh_set_rule("each case is an item tree built (by construction calls or by cbor_load) inside an arena that is write-protected before every read-only function is run on every node; a store into the protected zone faults and is attributed to the written block/field; non-trivial = a tree was obtained; distinct by hash of the generator index / input");
   vh_set_exhaustive(false);
